@@ -1,4 +1,6 @@
 #!/bin/sh
+# evidence / replay files of runs on a patched tree go to a scratch directory, never to /verif/evidence
+XMC_EVIDENCE_DIR=${XMC_EVIDENCE_DIR:-/tmp/patched_ev}; XMC_REPLAY_DIR=${XMC_REPLAY_DIR:-/tmp/patched_ev}; export XMC_EVIDENCE_DIR XMC_REPLAY_DIR; mkdir -p /tmp/patched_ev
 # usage: eval_seed.sh <id> <patch> <demo.py> [checks...]
 # Confirms a seeded change independently and runs checks against it:
 #  1. fresh scratch worktree of /repo HEAD under /tmp: demo passes on the original code
